@@ -128,6 +128,34 @@ def case_two_calls(T, n, max_iters, same=False):
         _check_factorisation(T, f"call {c + 1} (examined after both calls)", Qc.to_dense(), Tc.to_dense(), Q, Tm, A, n, max_iters, None)
 
 
+def case_mixed_precision(T, n, max_iters):
+    """float64 operator, start vector handed over in float32: the basis lives in the promoted dtype and is orthonormal to the accuracy of THAT dtype
+    (in exact arithmetic this is the plain property; the float cross-run of each path, with v really rounded to float32, is what decides the
+    rounding-level part: 1e-12, far below float32's 6e-8)"""
+    dt, Q, al, be, s, Tm, A, v = _setup(T, n, 0, False, None)
+    for j in range(n - 1):
+        T.assume(be[j] >= 1e-1)
+        T.assume(be[j] <= 1e1)
+    T.assume(s >= 1e-1)
+    T.assume(s <= 1e1)
+    v32 = _vec(T, [v[i] for i in range(n)], 'float32')
+    Qc, Tc, info = lanczos(cola.SelfAdjoint(cola.ops.Dense(A)), v32, max_iters=max_iters, tol=1e-9)
+    Qd, Td = Qc.to_dense(), Tc.to_dense()
+    k = Qd.shape[1]
+    T.check("mixed precision: basis in the promoted dtype", np.dtype(Qd.dtype) == np.dtype('float64'), f"{Qd.dtype}")
+    G = Qd.T @ Qd
+    if T.sym:
+        T.eq("mixed precision: Q^T Q == I", G, K.eye_like(T, k, 'float64'), dtype=False)
+        T.eq("mixed precision: Q^T A Q == T", Qd.T @ A @ Qd, Td, dtype=False)
+        T.eq("mixed precision: first column * ||v|| == v", Qd[:, 0] * s, v, dtype=False)
+    else:
+        v64 = np.asarray(v32, dtype=np.float64)
+        T.true("mixed precision: Q^T Q == I", [bool(np.abs(np.asarray(G) - np.eye(k)).max() <= 1e-12)])
+        T.true("mixed precision: Q^T A Q == T", [bool(np.abs(np.asarray(Qd.T @ A @ Qd - Td)).max() <= 1e-11 * max(1.0, float(np.abs(A).max())))])
+        # (the first column agrees with v / ||v|| only to the precision v was handed over in: the library normalises once in v's own dtype)
+        T.true("mixed precision: first column * ||v|| == v", [bool(np.abs(np.asarray(Qd[:, 0]) - v64 / np.linalg.norm(v64)).max() <= 1e-6)])
+
+
 def case_eigs(T, n, max_iters, variant=0, zero_all=False):
     """lanczos_eigs: Ritz pairs in ascending order.  n = 2 with symbolic T = P diag(w) P^T, or diagonal T (all beta = 0 is not
     reachable from a generic start vector, so: start vector = eigenvector, Krylov dimension 1)"""
@@ -296,6 +324,7 @@ def cases(tier, seed):
                     continue
                 out.append((f"real:n{n}v{variant}m{m}", case_lanczos, dict(n=n, max_iters=m, variant=variant)))
         out.append((f"tol0:n{n}m{n + 3}", case_lanczos, dict(n=n, max_iters=n + 3, tol=0.0)))
+        out.append((f"mixed-precision:n{n}m{n}", case_mixed_precision, dict(n=n, max_iters=n), dict(partial_ok=True)))
         out.append((f"two-calls:n{n}m{n}", case_two_calls, dict(n=n, max_iters=n), dict(partial_ok=True)))
         out.append((f"two-calls:n{n}m{n - 1}", case_two_calls, dict(n=n, max_iters=n - 1), dict(partial_ok=True)))
         out.append((f"two-calls-same:n{n}m{n}", case_two_calls, dict(n=n, max_iters=n, same=True), dict(partial_ok=True)))
